@@ -15,6 +15,14 @@ impl<SE: crate::extensions::ShellExtensions> crate::Shell<SE> {
         Ok(())
     }
 
+    /// Lets this (child) shell know which trap handlers its parent is in the middle of
+    /// running: a command substitution inside a handler is still part of that handler and must
+    /// not start it again.
+    pub(crate) fn inherit_active_trap_handlers(&mut self, parent: &Self) {
+        self.call_stack
+            .inherit_active_trap_signals(&parent.call_stack);
+    }
+
     /// Invokes the handler registered for `signal`, if any.
     ///
     /// Behavior varies by signal type:
